@@ -194,6 +194,7 @@ fn compute_inner(tree: &mut impl LayoutBlockContainer, node_id: NodeId, inputs: 
         || border.top > 0.0
         || border.bottom > 0.0
         || matches!(size.height, Some(h) if h > 0.0)
+        || matches!(known_dimensions.height, Some(h) if h > 0.0)
         || matches!(min_size.height, Some(h) if h > 0.0);
 
     let text_align = style.text_align();
